@@ -97,6 +97,21 @@ structure MethodCfg where
   modified : List (Slot × Part)
 deriving DecidableEq, Repr
 
+/-- the equality of the values `prop_diff` compares (`fim/slivers/capacities_labels.py`, `fim/slivers/json_data.py`) -/
+structure ValCfg where
+  /-- `Labels.__eq__` compares a field with `other.__dict__.get(f)` (`none`) or `.get(f, n)` (`some n`) -/
+  labelsMissing : Option Int
+  /-- the same for `Capacities.__eq__` -/
+  capsMissing : Option Int
+  /-- `JSONField`, `Labels`, `Capacities` define neither `__bool__` nor `__len__`: the `if not other: return False` that opens
+      their `__eq__` is a `None` test -/
+  notOtherIsNone : Bool
+  /-- `JSONData.__eq__` requires `self.__class__ is other.__class__` -/
+  udSameClass : Bool
+  /-- … and compares `_canonical()` = `json.dumps(json.loads(self._data), sort_keys=True)` of both sides -/
+  udCanonicalText : Bool
+deriving DecidableEq, Repr
+
 structure Cfg where
   /-- `prop_diff`: (property compared, flag raised), in source order -/
   props : List (PropK × FlagK)
@@ -104,6 +119,10 @@ structure Cfg where
   flagVal : List (FlagK × Nat)
   /-- the `*Info` classes define neither `__bool__` nor `__len__`: `if self.x_info` tests presence -/
   infoPresence : Bool
+  /-- every `diff` starts with `super().diff(other_sliver)` and the abstract `BaseSliver.diff` is
+      `assert isinstance(self, other_sliver.__class__)`: slivers of unrelated classes are never compared -/
+  classGuard : Bool
+  vals : ValCfg
   node : MethodCfg
   svc : MethodCfg
   iface : MethodCfg
